@@ -35,6 +35,7 @@ package corerad
 // listener.go
 
 //@ ghost var invalid Int
+//@ ghost var lastHop Int
 
 //@ func panicf
 //@   requires UNREACHABLE: false
@@ -63,12 +64,14 @@ package corerad
 //@   ghost local timeouts Int
 //@   ghost local bad Int
 //@   requires P0: ctx != nil && listenerOK(l)
-//@   assigns ghost.reads, ghost.invalid, ghost.done, ghost.now
+//@   assigns ghost.reads, ghost.invalid, ghost.done, ghost.now, ghost.lastHop
+//@   at call ReadFrom() (rm, rcm, rhost, rerr): ghost.lastHop = rcm.HopLimit
 //@   loop 1 invariant I1 [C09,C10]: 0 <= i && i <= 5 && ghost.timeouts == i && ghost.bad >= 0
 //@   loop 1 invariant I2 [C09]: ghost.invalid == old(ghost.invalid) + ghost.bad
 //@   at call time.After(w): assert B1 [C10]: w == ms(50) * ghost.timeouts ; ghost.timeouts = ghost.timeouts + 1
 //@   at call MessagesReceivedInvalidTotal(v, labels): ghost.bad = ghost.bad + 1
 //@   ensures E1 [C09]: result2 == nil ==> cm != nil && cm.HopLimit == 255 && result0 == m && result1 == host
+//@   ensures E5 [C09]: result2 == nil ==> ghost.lastHop == 255 && result0 != nil
 //@   ensures E2 [C09,C10]: result2 == errRetriesExhausted ==> ghost.timeouts == 5
 //@   ensures E3 [C09]: ghost.invalid == old(ghost.invalid) + ghost.bad
 //@   ensures E4 [C10]: result2 != nil ==> result0 == nil
@@ -152,3 +155,38 @@ package corerad
 //@   at call Delay(sg, dl, fn) when !addrIsMulticast(ip): assert U2 [C07]: 0 <= dl && dl < ms(500)
 //@   at call Delay(sg, dl, fn) when addrIsMulticast(ip): assert R1 [C06]: ghost.now + dl >= ghost.lastFire + a.minDelayBetweenRAs ; assert R2 [C06]: ghost.now + dl <= ghost.trigger + a.minDelayBetweenRAs && ghost.now + dl >= ghost.trigger ; ghost.lastFire = ghost.now + dl
 //@   opt safety [C06]
+
+// ---------------------------------------------------------------------------
+// listener.go: Listen (C09 delivery, C10 tear-down discipline, C18 zone)
+
+// The interrupt goroutine: blocks only on cancellation of the derived context.
+//@ func (*listener).Listen$1
+//@   requires P0: ctx != nil && l != nil && l.c != nil
+//@   assigns ghost.done
+//@   ensures X1 [C10]: isDone(ctx)
+//@   opt cancelable [C10]
+//@   opt safety [C10]
+
+// The deferred join of the interrupt goroutine.
+//@ funcparam corerad.(*listener).Listen$2.cancel()
+//@   opt same funcresult:context.WithCancel.1
+//@ func (*listener).Listen$2
+//@   opt capture CAP
+//@   requires CAP [C10]: addr(eg) != nil && cancel != nil && cancelOf(cancel) == egNeed(ghost.egNeeds, addr(eg))
+//@   assigns ghost.done
+//@   opt safety [C10]
+
+//@ funcparam corerad.(*listener).Listen.onMessage(msg) (err)
+//@   assigns everything
+//@   opt preserves ghost.egNeeds, heap(corerad.listener), heap(corerad.Context), heap(corerad.Metrics)
+
+//@ func (*listener).Listen
+//@   ghost local lastM Iface
+//@   ghost local lastHost Addr
+//@   requires P0: ctx != nil && onMessage != nil && listenerOK(l)
+//@   assigns everything
+//@   at call Go(g, f): ghost.egNeeds = egNeedSet(ghost.egNeeds, g, ctx.val)
+//@   at call receiveRetry(rl, rctx) (rm, rhost, rerr): ghost.lastM = rm ; ghost.lastHost = rhost
+//@   at call onMessage(msg): assert D1 [C09]: msg.Message == ghost.lastM && msg.Message != nil && ghost.lastHop == 255 ; assert Z1 [C18]: msg.Host == addrWithZone(ghost.lastHost, "")
+//@   loop 1 invariant L0 [C10]: l != nil && listenerOK(l) && ctx != nil && egNeed(ghost.egNeeds, addr(eg)) == ctx.val && cancelOf(cancel) == ctx.val
+//@   opt safety [C09,C10]
